@@ -503,6 +503,11 @@ func literalsC01(c *Ctx, tt *tokenTable) {
 			}
 		}
 		key := "(*Parser).parseUnaryExpr: first token " + tn
+		delete(got, "nil") // the nil a helper returns next to its error
+		if got["<any>"] {
+			c.Unk("C01.literals", key, pu.Pos(), "the node comes out of a call whose result kinds are not bounded")
+			continue
+		}
 		okSet := len(got) > 0
 		for n := range got {
 			in := false
